@@ -324,9 +324,15 @@ impl Nodes {
         }
         report.count("ms_forge", t1.elapsed().as_millis() as u64);
         let t2 = std::time::Instant::now();
+        // the battery asks about every block of the history at every moment - also before it has
+        // arrived (a query for a hash the node does not know yet must not change anything later)
         let mut seen_blocks: Vec<(String, BlockView)> = vec![("G".into(), cons.genesis_block().clone())];
+        for ((br, n), (blk, _)) in &built {
+            seen_blocks.push((format!("{br}{n}"), blk.clone()));
+        }
         let mut trace: Vec<String> = vec![];
         let ord = order();
+        self.compare(&seen_blocks, &trace, &label, report, true, false)?;
         for k in 0..=ord.len() {
             for (ti, pos) in &case.submits {
                 if *pos as usize != k {
@@ -363,7 +369,6 @@ impl Nodes {
                     Err(e) => format!("Err {}", err_class(&e.to_string())),
                 });
             }
-            seen_blocks.push((format!("{br}{n}"), blk.clone()));
             trace.push(format!("block {br}{n} -> {}", answers[0]));
             report.transitions += 3;
             if answers[1] != answers[0] || answers[2] != answers[0] {
@@ -484,7 +489,7 @@ pub fn meta(tier: Tier) -> Meta {
     Meta {
         id: "C14",
         level: "model_checking",
-        rule: "case = (placement of the witness-dependent tx W (good / bad witness, same tx hash) in a3 and b3, placement of the since-locked tx S in block 3 (premature) or 4 on each branch, parent/child pair in one or two blocks, conflicting Ta / Tb, submission position of each relevant tx incl. both witness variants) -> blocks a1..a4 | b1..b5 forged freshly, blocks after an invalid one not built; delivered with the submissions to three real nodes (chain + pool) differing only in caches: all store read caches and the tx verification cache at capacity 0 / default / 1; the default and capacity-1 nodes keep their caches across cases (rebooted every 25 cases). After EVERY event: identical submission verdicts, identical block verdicts and equal to the verdict by construction, identical pool entries (cycles, fee, size), identical answers of a query battery (block, header, ext with fees/cycles/verified, uncles, proposals, extension, tx hashes, number, main-chain flag, epoch, ancestor, hash-by-number, transaction with info, cell status with data through the snapshot's CellProvider) over every block - including rejected ones -, transaction and out-point of the history. non-trivial = a case with an invalid block.",
+        rule: "case = (placement of the witness-dependent tx W (good / bad witness, same tx hash) in a3 and b3, placement of the since-locked tx S in block 3 (premature) or 4 on each branch, parent/child pair in one or two blocks, conflicting Ta / Tb, submission position of each relevant tx incl. both witness variants) -> blocks a1..a4 | b1..b5 forged freshly, blocks after an invalid one not built; delivered with the submissions to three real nodes (chain + pool) differing only in caches: all store read caches and the tx verification cache at capacity 0 / default / 1; the default and capacity-1 nodes keep their caches across cases (rebooted every 25 cases). After EVERY event: identical submission verdicts, identical block verdicts and equal to the verdict by construction, identical pool entries (cycles, fee, size), identical answers of a query battery (block, header, ext with fees/cycles/verified, uncles, proposals, extension, tx hashes, number, main-chain flag, epoch, ancestor, hash-by-number, transaction with info, cell status with data through the snapshot's CellProvider) over every block - including rejected ones and blocks that have not arrived yet -, transaction and out-point of the history. non-trivial = a case with an invalid block.",
         assumptions: &["raw ChainStore::get_cell_data / get_cell_data_hash on dead cells are counted, not judged (public queries reach cell data only through the liveness check)", "the hard-fork schedule is constant (all features active from genesis): VM version selection across a fork boundary with a warm cache is not exercised", "SYSTEM_CELL resolved-dep cache is process global and not varied"],
         bounds: json!({"positions": if tier.is_thorough() { json!(["never", 0, 2, 3, 4, 7]) } else { json!(["never", 0, 3]) }, "nodes": ["caches off", "default", "capacity 1"], "reboot_every": 25}),
     }
